@@ -164,6 +164,7 @@ class Interp:
         self.depth = 0
         self.trace = False
         self.lenient = False
+        self._base_ids = None
         self.merge_ints = merge if merge_ints is None else merge_ints
         self.backedge_check = backedge_check
         from . import models as _m
@@ -350,8 +351,8 @@ class Interp:
     def store(self, st, ptr, nv):
         if ptr is None:
             raise GoPanic('nil pointer dereference (store)')
-        if self.track_globals and isinstance(ptr.obj, str):
-            self.global_writes.add(ptr.obj)
+        if self.track_globals and (isinstance(ptr.obj, str) or ptr.obj in self.base_ids):
+            self.global_writes.add(ptr.obj if isinstance(ptr.obj, str) else 'object owned by package-level state (%s)' % OBJTYPE.get(ptr.obj))
         if ptr.path:
             v = self.heapget(st, ptr.obj)
             t = OBJTYPE.get(ptr.obj) if not isinstance(ptr.obj, str) else self.prog.globals[ptr.obj]['elem']
@@ -373,6 +374,8 @@ class Interp:
         """overwrite cells [i, i+len(cells)) of slice sl"""
         if not cells:
             return
+        if self.track_globals and sl.obj in self.base_ids:
+            self.global_writes.add('array owned by package-level state (%s)' % (OBJTYPE.get(sl.obj),))
         arr = self.heapget(st, sl.obj)
         if sl.path:
             sub = self.getp(arr, sl.path)
@@ -1788,6 +1791,8 @@ class Interp:
         v = self.operand(fr, ins['value'])
         if m is None:
             raise GoPanic('assignment to entry in nil map')
+        if self.track_globals and m.obj in self.base_ids:
+            self.global_writes.add('map owned by package-level state (%s)' % OBJTYPE.get(m.obj))
         ents = self.heapget(st, m.obj)
         found = self.map_find(st, ents, k)
 
@@ -1890,6 +1895,13 @@ class Interp:
                 raise Unsupported('package init of %s did not run to completion: %r' % (p, [(o.kind, o.val) for o in outs]))
             st = outs[0].st
         self.base_heap = st.heap
+
+    @property
+    def base_ids(self):
+        b = self._base_ids
+        if b is None or b[0] is not self.base_heap:
+            b = self._base_ids = (self.base_heap, frozenset(k for k in self.base_heap if not isinstance(k, str)))
+        return b[1]
 
     def new_state(self):
         return State((), dict(self.base_heap), dom=dict(self.ctx.dom0), mvars=self.ctx.mvars0)
